@@ -39,8 +39,8 @@ LAYOUTS = {
              ("mdotslack", "slack", MDOTSLACKINIT, False, "tol_m")]),
     "heat": ("heat", ["Tout", "T"], ["tol_T", "tol_T"], ["branch", "node"], "max_iter_therm",
              [("Tout", "branch", TOUTINIT, True, "tol_T"), ("T", "node", TINIT, True, "tol_T")]),
-    "bidir": ("bidirectional", ["mdot", "p", "TOUT", "T"], ["tol_m", "tol_p", "tol_T", "tol_T"],
-              ["branch", "node", "branch", "node"], "max_iter_bidirect",
+    "bidir": ("bidirectional", ["mdot", "p", "mdotslack", "TOUT", "T"], ["tol_m", "tol_p", "tol_m", "tol_T", "tol_T"],
+              ["branch", "node", "node", "branch", "node"], "max_iter_bidirect",
               [("mdot", "branch", MDOTINIT, True, "tol_m"), ("p", "node", PINIT, True, "tol_p"),
                ("mdotslack", "slack", MDOTSLACKINIT, False, "tol_m"),
                ("Tout", "branch", TOUTINIT, True, "tol_T"), ("T", "node", TINIT, True, "tol_T")]),
